@@ -138,6 +138,11 @@ def run_case(acc, idx, c):
         dt = _arr.DTYPES[c["dt"]]
         v = _arr.values_for(_arr.SHAPES[c["shape"]], dt, 1, 0)
         a = A_(v, unit=c["u1"])
+        bad = _arr.label_mismatch(a.unit, c["u1"]) or _arr.label_mismatch(osyris.units(c["u2"]), c["u2"])
+        if bad:
+            # the unit the library made of the string is not the unit the string names: every conversion from or to it is off
+            acc.violation("C08:unit-string-read-as-another-unit", idx, c, bad)
+            return "wrong-unit-of-string", True
         sa = _arr.snapshot(a)
         P, dP, tP = _arr.phys(a)
         try:
@@ -184,6 +189,10 @@ def run_case(acc, idx, c):
         n = c["nvec"]
         comps = [np.array([1.0, -2.0, 3.5]) * (i + 1) for i in range(n)]
         vec = V_(*comps, unit=c["u1"])
+        bad = _arr.label_mismatch(vec.unit, c["u1"]) or _arr.label_mismatch(osyris.units(c["u2"]), c["u2"])
+        if bad:
+            acc.violation("C08:unit-string-read-as-another-unit:vector", idx, c, bad)
+            return "wrong-unit-of-string", True
         sv = _arr.snapshot(vec)
         try:
             w = vec.to(c["u2"])
